@@ -9,7 +9,7 @@ package c10
 //	Quant       := * + ? {1,2} {2} {0,}  each greedy or lazy
 //
 // size = number of symbols: every atom, quantifier, group and '|' counts 1.
-// Atoms are split into the core letters {a, b} and the 18 "exotic" atoms; a
+// Atoms are split into the core letters {a, b} and the 19 "exotic" atoms; a
 // pattern is generated when its size and its number of exotic atoms are within
 // the tier's bounds (exhaustive inside those bounds).
 
@@ -20,7 +20,7 @@ type genPat struct {
 }
 
 var coreAtoms = []string{"a", "b"}
-var exoticAtoms = []string{".", `\d`, `\w`, `\b`, `\B`, "[ab]", "[^a]", "[a-c]", `[\d]`, `\x61`, `\x0A`, "\\" + "u0061", `\cJ`, `\n`, `\/`, `\.`, "^", "$"}
+var exoticAtoms = []string{".", `\d`, `\w`, `\b`, `\B`, "[ab]", "[^a]", "[a-c]", `[\d]`, `\x61`, `\x0A`, "\\" + "u0061", `\cJ`, `\n`, `\/`, `\.`, "s", "^", "$"}
 var coreQuants = []string{"*", "+", "?", "*?"}
 var exoticQuants = []string{"{1,2}", "{2}", "{0,}", "+?", "??", "{1,2}?", "{2}?", "{0,}?"}
 
@@ -178,3 +178,36 @@ func Subjects(maxLen int) [][]uint16 {
 	}
 	return out
 }
+
+// Extended subjects (appended after the exhaustive strings over the base
+// alphabet, so every prefix of the base list stays a prefix): the symbols that
+// distinguish ES5 from other regexp dialects — the line terminators \r and
+// U+2028 (15.10.2.6 / 15.10.2.8: '.', multiline ^ $), the two non-ASCII
+// characters whose case folding reaches ASCII, U+017F (long s) and U+212A
+// (Kelvin sign) (15.10.2.8 Canonicalize never maps them to s / k), and the
+// letter s itself. Every string x, xp, px with x an extended symbol and p in
+// {a, b, \n}, plus the \r\n combinations.
+var extSymbols = []uint16{'\r', 0x2028, 0x017F, 0x212A, 's'}
+
+func extSubjects() [][]uint16 {
+	var out [][]uint16
+	partners := []uint16{'a', 'b', '\n'}
+	for _, x := range extSymbols {
+		out = append(out, []uint16{x})
+	}
+	for _, x := range extSymbols {
+		for _, p := range partners {
+			out = append(out, []uint16{x, p})
+		}
+	}
+	for _, p := range partners {
+		for _, x := range extSymbols {
+			out = append(out, []uint16{p, x})
+		}
+	}
+	out = append(out, []uint16{'\r', '\r'}, []uint16{'\n', '\r'}, []uint16{'s', 0x017F}, []uint16{0x212A, 's'})
+	return out
+}
+
+// SubjectsExt is Subjects(maxLen) followed by the extended subjects.
+func SubjectsExt(maxLen int) [][]uint16 { return append(Subjects(maxLen), extSubjects()...) }
